@@ -27,6 +27,9 @@ def main():
     os.makedirs(ev, exist_ok=True)
     res = {}
     checks = only or [c["property_id"] for c in json.load(open(os.path.join(ROOT, "MANIFEST.json")))["checks"]]
+    leandir = f"/tmp/evallean_{tag}_{os.getpid()}"
+    sh(f"cp -r {ROOT}/lean {leandir}")
+    os.environ["VERIF_LEAN_DIR"] = leandir
     try:
         for c in checks:
             t0 = time.time()
@@ -46,6 +49,7 @@ def main():
             print(c, "rc=", rc, kinds if rc else "")
     finally:
         sh(f"git worktree remove --force {wt}", cwd="/repo")
+        sh(f"rm -rf {leandir}")
     json.dump(res, open(os.path.join(d, "result.json"), "w"), indent=1)
     false_alarms = {c: v for c, v in res.items() if any(k.get("kind") not in ("no-failing-input-found",) for k in v["reports"]) and v["rc"] != 0}
     print("FALSE ALARMS / INFRA:", list(false_alarms) or "none", "| pin-only reports:", [c for c, v in res.items() if v["rc"] == 1 and c not in false_alarms])
